@@ -509,3 +509,117 @@ def check_c19(tier, replay=None):
                           ["field names, optionality and vocabularies are those written in the serde models and remembered from the public Bot API (no network to re-read it)",
                            "the encoder (abstract message -> JSON text) is the trusted environment model",
                            "don't-care: escapes inside moves; AI players without id; declineReason/rules (shape uncertain)"])
+
+
+# --------------------------------------------------------------------------- C17
+CASTLE_FENS = ["r3k2r/pppppppp/8/8/8/8/PPPPPPPP/R3K2R w KQkq - 0 1", "r3k2r/8/8/8/8/8/8/R3K2R w KQkq - 0 1", "r3k2r/8/8/8/8/8/8/R3K2R b KQkq - 0 12",
+               "rnbqk2r/pppp1ppp/5n2/2b1p3/2B1P3/5N2/PPPP1PPP/RNBQK2R w KQkq - 4 4", "r3k2r/Pppp1ppp/1b3nbN/nP6/BBP1P3/q4N2/Pp1P2PP/R2Q1RK1 w kq - 0 1"]
+
+
+def check_c17(tier, replay=None):
+    t0 = time.time()
+    T = tier == "thorough"
+    wd = workdir("C17")
+    rng = random.Random("C17-%d" % seed())
+    # (A) the window model
+    minfo = run_tlc(os.path.join(SPEC, "ReaderMC.tla"), os.path.join(SPEC, "ReaderMC.cfg"), wd, workers=4, parallel_gc=True, timeout=1200)
+    if minfo["rc"] != 0 or "Error:" in minfo["out"]:
+        raise ToolError("ReaderMC does not hold:\n" + minfo["out"][-2000:])
+    if replay:
+        c = json.load(open(replay))
+        specs = [c["spec"]]
+        sched = [(c["chunk"], c["frag"])]
+    else:
+        specs = []
+        for _ in range(400 if T else 36):
+            games = []
+            for _ in range(rng.choice([1, 1, 2, 3, 4])):
+                fen = rng.choice([START_FEN, START_FEN] + CASTLE_FENS)
+                tags = [["Event", rng.choice(["Rated Blitz game", "Casual game", "?"])], ["Site", "https://lichess.org/" + "".join(rng.choice("abcdefgh12345678") for _ in range(8))],
+                        ["White", rng.choice(["alice", "Bob_99", "?"])], ["Black", rng.choice(["carol", "dave"])]]
+                res = rng.choice(["1-0", "0-1", "1/2-1/2", "*"])
+                tags.append(["Result", res])
+                if fen != START_FEN:
+                    tags += [["SetUp", "1"], ["FEN", fen]]
+                if rng.random() < 0.3:
+                    tags = tags[:rng.randrange(1, len(tags))] + ([["FEN", fen], ["SetUp", "1"]] if fen != START_FEN else [])
+                    tags = [list(x) for x in dict((a, b) for a, b in tags).items()]
+                games.append({"fen": fen, "plies": rng.choice([0, 1, 2, 7, 20, 40, 80, 120] if T else [0, 1, 2, 7, 20, 40]), "tags": tags,
+                              "clk": rng.random() < 0.5, "marks": rng.random() < 0.3, "result": res})
+            specs.append({"games": games, "tail": rng.choice(["\n", "\n", "", "\n\n"])})
+        sched = None
+    # (C) TLC plays legal games and renders the databases
+    n = min(NCPU, max(1, len(specs) // 3))
+    parts = [specs[i::n] for i in range(n)]
+
+    def gen(i):
+        sp = os.path.join(wd, "specs_%d.ndjson" % i)
+        with open(sp, "w") as f:
+            for s in parts[i]:
+                f.write(json.dumps(s) + "\n")
+        out, info = tlc_gen("PgnGen", wd, {"SPECS": sp}, "pgngen%d" % i, extra=["-seed", str(seed() * 100 + i)])
+        return out, info
+
+    dbs = []
+    spec_of = []
+    for i, (out, info) in enumerate(pmap(gen, list(range(n)))):
+        for j, d in enumerate(out):
+            dbs.append(d)
+            spec_of.append(parts[i][j])
+    dbs_path = os.path.join(wd, "dbs.json")
+    json.dump(dbs, open(dbs_path, "w"))
+    cases = []
+    for tid, d in enumerate(dbs, 1):
+        L = len(d["text"])
+        runs = sched or ([(c, []) for c in (1, 2, 3, 5, 7, 64, 8192)] +
+                         [(rng.choice([2, 3, 5, 7, 64]), [rng.randrange(1, 8) for _ in range(rng.randrange(1, 9))]) for _ in range(3 if T else 2)] +
+                         [(8192, [1]), (rng.choice([4, 16]), [1, rng.randrange(1, 20)])])
+        for chunk, frag in runs:
+            cases.append({"id": len(cases) + 1, "family": "pgn", "text_id": tid, "chunk": chunk, "frag": frag, "spec": spec_of[tid - 1],
+                          "key": [d["text"], chunk, frag], "why": "database text x chunk size x read fragmentation"})
+    log("C17: %d databases, %d reader runs" % (len(dbs), len(cases)))
+    outcome = Outcome("C17")
+    shards = shard(cases, NCPU, lambda c: len(dbs[c["text_id"] - 1]["text"]))
+
+    def one(i):
+        tr = run_harness("pgn", [{k: v for k, v in c.items() if k not in ("spec", "key")} for c in shards[i]], wd, "s%d" % i, "C17", extra=[dbs_path])
+        res, info = validate_trace("PgnTrace.tla", "PgnTrace.cfg", tr, wd, "s%d" % i, env={"DBS": dbs_path})
+        return tr, res, info
+
+    results = pmap(one, list(range(len(shards))))
+    by_id = {c["id"]: c for c in cases}
+    states, trans = minfo["distinct"], minfo["generated"]
+    evals = 0
+    bad = set()
+    nt = set()
+    for tr, res, info in results:
+        states += info["distinct"]
+        trans += info["generated"]
+        evs = read_ndjson(tr)
+        evals += len(evs)
+        for i in res["ntr"]:
+            e = evs[i - 1]
+            nt.add((e["text_id"], e["chunk"], tuple(e["frag"])))
+        for note in res["bad"]:
+            bad.add(note["c"])
+            outcome.add({k: v for k, v in by_id.get(note["c"], {}).items() if k != "key"}, note, matcher_for("C17"))
+    d0 = dbs[0]
+    cov = {"states": states, "transitions": trans, "traces_validated_against_impl": len(cases) - len(bad),
+           "evaluations": evals, "distinct_nontrivial": len(nt), "model_states": minfo["distinct"], "databases": len(dbs),
+           "rule": "model: ReaderMC (refillable window, every source length 0..9, chunk 1..4, every fragmentation). content: TLC (PgnGen.tla) plays random legal games "
+                   "(Legal/Apply) from the start position and from castling-rich FENs, writes their SAN (San.tla), and renders 1-4 games per database in the Lichess "
+                   "layout (tags, blank line, one-line movetext with move numbers, optional {clock comments} and !? marks, every result token, three kinds of file "
+                   "end); each database is read with chunk sizes 1,2,3,5,7,64,8192 and fragmented readers; TLC re-renders the collection and compares every yielded "
+                   "item (tags as map, moves and comments in order) and the final FEN of replaying the yielded SAN. distinct_nontrivial = distinct (text, chunk, "
+                   "fragmentation) runs on databases with more than one game or with a castling move",
+           "samples": [{"text": d0["text"][:600], "chunk": cases[0]["chunk"], "frag": cases[0]["frag"]}], "exhaustive": False,
+           "checker_cmd": "tlc -config spec/ReaderMC.cfg spec/ReaderMC.tla; java ... tlc2.TLC -config spec/PgnGen.cfg spec/PgnGen.tla; java ... tlc2.TLC -config spec/PgnTrace.cfg spec/PgnTrace.tla"}
+    rc = outcome.finish()
+    write_evidence("C17", tier, "model_checking", cov, time.time() - t0, len(outcome.violations),
+                   ["Lichess export layout per DESIGN.md Appendix B.9 (tag values without escapes, comments without nested braces or newlines)",
+                    "the Read adaptor returns at most the scheduled number of bytes per call and never 0 before the end",
+                    "ReaderMC is a model of the window logic; the fragmented runs are what binds it to the code"])
+    return rc
+
+
+START_FEN = "rnbqkbnr/pppppppp/8/8/8/8/PPPPPPPP/RNBQKBNR w KQkq - 0 1"
